@@ -77,7 +77,7 @@ def _build(rng):
             recs.append([off, _payload(rng, n)])
         prev_end = off + n
     return {"t": "good", "records": recs, "delta": delta, "form": rng.choice(["lit", "zero-minus", "neg"]),
-            "place": rng.choice(["top", "block", "between", "scope"])}
+            "place": rng.choice(["top", "block", "between", "scope", "loop", "macro"])}
 
 
 def strategy(tier):
@@ -169,8 +169,16 @@ def _delta_text(delta, form):
     return f"-{-delta}"
 
 
+LOOP_STEP = 0x10000
+
+
 def _program(place, delta_text):
     d = f".include_ips 'p.ips', {delta_text}\n"
+    if place == "loop":
+        # the same directive expanded three times with a delta that depends on the loop variable
+        return HOST_PRE + f".for i_d := 0, 3 {{\n.include_ips 'p.ips', {delta_text} + i_d * 0x{LOOP_STEP:x}\n}}\n" + HOST_POST
+    if place == "macro":
+        return HOST_PRE + f".macro m_ips(p_d) {{\n.include_ips 'p.ips', p_d\n}}\nm_ips({delta_text})\nm_ips({delta_text} + 0x{LOOP_STEP:x})\n" + HOST_POST
     if place == "top":
         return d + HOST_PRE + HOST_POST
     if place == "block":
@@ -185,6 +193,10 @@ def _host_only(place):
         return HOST_PRE + ".scope sc_a {\n.db 9\nlb_in:\n}\n" + HOST_POST
     if place == "block":
         return HOST_PRE + "{\n}\n" + HOST_POST
+    if place == "loop":
+        return HOST_PRE + ".for i_d := 0, 3 {\n}\n" + HOST_POST
+    if place == "macro":
+        return HOST_PRE + ".macro m_ips(p_d) {\n}\nm_ips(0)\nm_ips(0)\n" + HOST_POST
     return HOST_PRE + HOST_POST
 
 
@@ -248,7 +260,8 @@ def run_case(case) -> Outcome:
     if any(off == ips.EOF_OFFSET for off, _ in recs):
         return Outcome(skip="record at the EOF marker offset (ambiguous)")
     blob = ips.build(recs)
-    expected = [(off + delta, (bytes([p[0]]) * p[1]) if isinstance(p, tuple) else p) for off, p in recs]
+    reps = {"loop": [0, LOOP_STEP, 2 * LOOP_STEP], "macro": [0, LOOP_STEP]}.get(case["place"], [0])
+    expected = [(off + delta + extra, (bytes([p[0]]) * p[1]) if isinstance(p, tuple) else p) for extra in reps for off, p in recs]
     if any(o < 0x10000 or o + len(d) > 1 << 24 for o, d in expected):
         return Outcome(skip="offset+delta outside the generated domain")
     labels = [f"place:{case['place']}", f"delta-form:{case['form']}"]
